@@ -464,6 +464,14 @@ func c07(args []string) int {
 	debug.SetGCPercent(-1)
 	oldTS := zerolog.TimestampFunc
 	defer func() { zerolog.TimestampFunc = oldTS }()
+	// the clock of the timestamp hook moves on by a second and a half per reading and changes its zone: "all argument
+	// values" includes the instants TimestampFunc returns
+	zones7 := []*time.Location{time.UTC, time.FixedZone("E", 3600), time.FixedZone("W", -5*3600)}
+	var tick7 int64
+	zerolog.TimestampFunc = func() time.Time {
+		tick7++
+		return time.Unix(1700000000+tick7*3/2, (tick7%2)*500000000).In(zones7[tick7%3])
+	}
 	zerolog.SetGlobalLevel(zerolog.TraceLevel)
 	w := &discardCount{}
 	type lg struct {
